@@ -268,3 +268,31 @@ Theorem C03_nest_occupancy2_validator_sound_partial : forall Lo1 r r2 rx n2 k2 L
           (NestOcc.occ_consistent (NestOcc.leader_bounds n2 k2 tmA) r2 rx (NestPart.collapse rx r0 p))
   then Nest.term_den tm (NestPart.collapse r rx (NestPart.collapse rx r0 p)) else 0.
 Proof. exact NestOccProofs.occ2_dyn_okb_sound. Qed.
+
+(* K: [uniform_occupancy(leader.n), uniform_shape(s)]: after Lo, r is occupancy-split into (r2, rx) and rx is shape-split by
+   step s into (r1, r0) *)
+Theorem C03_nest_shape_beneath_occupancy_partial : forall Lo r r2 rx n k r1 r0 s Li tm,
+  ~ In r Lo -> ~ In rx Lo -> r2 <> rx ->
+  NestOcc.wf_outer Lo (NestOcc.occ_shape_state_ok r r2 rx n k r1 r0 s Li) [tm] ->
+  forall p, Nest.sum_at p (NestOcc.run_then_split Lo (NestOcc.occ_then_shape r r2 rx n k r1 r0 s) Li [tm]) =
+            if andb (NestPart.consistent r1 r0 s p)
+                    (NestOcc.occ_consistent (NestOcc.leader_bounds n k (NestOcc.reach_term Lo p tm)) r2 rx (NestPart.collapse rx r0 p))
+            then Nest.term_den tm (NestPart.collapse r rx (NestPart.collapse rx r0 p)) else 0.
+Proof. exact NestOccProofs.shape_beneath_occ_sound. Qed.
+
+(* the operations of the nest model ARE the operations of the modelled runtime (Rt.split_nonuniform, Rt.split_equal - the
+   functions the interpreter runs) under the embedding NestOcc.to_rt of Nest tries into Rt tries; in particular, for the
+   leader, splitNonUniform at the boundaries of splitEqual(n) is splitEqual(n) *)
+Theorem C03_nest_bounds_split_is_rt_split_nonuniform : forall bs l,
+  split_nonuniform (map VInt bs) (NestOcc.to_rt (Nest.Node l)) = Some (NestOcc.to_rt (Nest.Node (NestOcc.bounds_split bs l))).
+Proof. exact NestOccProofs.bounds_split_is_split_nonuniform. Qed.
+
+Theorem C03_nest_equal_split_is_rt_split_equal : forall n l, (0 < n)%nat ->
+  split_equal (Z.of_nat n) (NestOcc.to_rt (Nest.Node l)) =
+  Some (NestOcc.to_rt (Nest.Node (NestOcc.equal_split (S (length l)) n l))).
+Proof. exact NestOccProofs.equal_split_is_split_equal. Qed.
+
+Theorem C03_nest_leader_split_nonuniform_is_split_equal : forall n l, (0 < n)%nat -> StronglySorted Z.lt (Nest.keys l) ->
+  split_nonuniform (map VInt (NestOcc.chunk_starts n l)) (NestOcc.to_rt (Nest.Node l)) =
+  split_equal (Z.of_nat n) (NestOcc.to_rt (Nest.Node l)).
+Proof. exact NestOccProofs.leader_split_nonuniform_is_split_equal. Qed.
